@@ -244,11 +244,15 @@ def time_description(case, mpi):
 TYPES = ('niter', 'residual_post_step', 'restart', 'dt', 'u')
 
 
-def op_budget(stats_serial, nranks):
-    """count-based budget of MPI calls for the simulated run: 3000 calls per rank and per step attempt of the serial emulation
-    (observed maximum on the unchanged tree: < 100); a run that exceeds it does not terminate like the serial one"""
-    attempts = len([k for k in stats_serial if k.type == 'niter'])
-    return 3000 * nranks * (attempts + 5)
+def op_budget(stats_serial, nranks, nlevels=1):
+    """count-based budget of MPI calls for the simulated run, proportional to the work of the serial emulation: FACTOR calls per rank, level
+    and iteration (+2 per step attempt); observed maximum on the unchanged tree: see OPS_FACTOR. A run that exceeds it does not terminate
+    like the serial one."""
+    work = sum(int(v) + 2 for k, v in stats_serial.items() if k.type == 'niter') + 5
+    return OPS_FACTOR * nranks * nlevels * work
+
+
+OPS_FACTOR = 200  # observed maximum of MPI calls per rank, level and (iteration + 2) on the unchanged tree: 11.7
 
 
 def summarize(stats_list):
@@ -340,7 +344,7 @@ def prop_time(case, r):
     uend_s, stats_s = ctrl.run(u0=u0, t0=0.0, Tend=Tend)
     ser = summarize([stats_s])
 
-    world = MPI.World(P, decisions=case['decisions'], seed=case['seed'], policy=case['policy'], max_ops=op_budget(stats_s, P))
+    world = MPI.World(P, decisions=case['decisions'], seed=case['seed'], policy=case['policy'], max_ops=op_budget(stats_s, P, case['levels']))
 
     def rank_main(rank, comm):
         d, cp = time_description(case, mpi=True)
@@ -467,7 +471,7 @@ def prop_nodes(case, r):
     u0[:] = np.resize(np.array(case['u0'], dtype=float), u0.shape)
     uend_s, stats_s = ctrl.run(u0=u0, t0=0.0, Tend=Tend)
     ser = summarize([stats_s])
-    world = MPI.World(M, decisions=case['decisions'], seed=case['seed'], policy=case['policy'], max_ops=op_budget(stats_s, M))
+    world = MPI.World(M, decisions=case['decisions'], seed=case['seed'], policy=case['policy'], max_ops=op_budget(stats_s, M, case.get('levels', 1)))
 
     def rank_main(rank, comm):
         c = controller_nonMPI(num_procs=1, controller_params=cparams(), description=description(comm))
